@@ -73,45 +73,52 @@ def main():
     ap.add_argument("--tier", default="quick")
     ap.add_argument("--file", default=os.path.join(V, "selftest", "mutants.json"))
     ap.add_argument("--out", default="")
+    ap.add_argument("--jobs", type=int, default=1, help="mutants checked concurrently")
     a = ap.parse_args()
     muts = json.load(open(a.file))
     props = set(filter(None, a.props.split(",")))
     ids = set(filter(None, a.ids.split(",")))
-    rows = []
-    for m in muts:
-        if props and m["property"] not in props:
-            continue
-        if ids and m["id"] not in ids:
-            continue
+    todo = [m for m in muts if (not props or m["property"] in props) and (not ids or m["id"] in ids)]
+
+    def one(m):
         d = make_copy()
         try:
             apply(m, d)
             st = suite(d) if a.suite else "not-run"
             t0 = time.time()
             env = dict(os.environ, VERIF_REPO=d)
+            if a.jobs > 1:
+                env["VERIF_JOBS"] = str(max(4, 16 // a.jobs))
             r = subprocess.run([sys.executable, os.path.join(V, "verif.py"), "check", m["property"], "--tier", a.tier], stdout=subprocess.PIPE, stderr=subprocess.STDOUT, text=True, env=env, cwd=V)
             dt = time.time() - t0
             viol = re.findall(r"^VIOLATION property=(\S+)", r.stdout, re.M)
             builderr = "BUILD-ERROR" in r.stdout or "build failed" in r.stdout
             why = ""
-            mm = re.search(r"why: (.*)", r.stdout) or re.search(r"ERROR: (\w+Sanitizer: [\w-]+)", r.stdout) or re.search(r"runtime error: (.*)", r.stdout)
+            mm = re.search(r"why: (.*)", r.stdout) or re.search(r"ERROR: (\w+Sanitizer: [\w-]+)", r.stdout) or re.search(r"runtime error: (.*)", r.stdout) or re.search(r"WARNING: (ThreadSanitizer: [^(]*)", r.stdout)
             if mm:
                 why = mm.group(1)[:160]
             if builderr:
                 why = "[HARNESS/ENGINE DID NOT BUILD] " + r.stdout[-200:].replace("\n", " ")
             if "did not reproduce" in r.stdout:
                 why = "[UNREPRODUCIBLE CANDIDATE: replay encoding or state leak?] " + why
-            row = {"id": m["id"], "property": m["property"], "suite": st, "caught": bool(viol) and r.returncode == 1, "build_error": builderr, "seconds": round(dt, 1), "first_reason": why,
+            row = {"id": m["id"], "property": m["property"], "suite": st, "caught": bool(viol) and r.returncode == 1, "build_error": builderr, "seconds": round(dt, 1), "first_reason": why, "tier": a.tier,
                    "what": m.get("what", m.get("find", m.get("revert", m.get("patch", "")))[:80])}
         except Exception as e:
-            row = {"id": m["id"], "property": m["property"], "suite": "n/a", "caught": False, "build_error": False, "seconds": 0, "first_reason": "ERROR " + str(e)[:200], "what": m.get("what", "")}
+            row = {"id": m["id"], "property": m["property"], "suite": "n/a", "caught": False, "build_error": False, "seconds": 0, "first_reason": "ERROR " + str(e)[:200], "tier": a.tier, "what": m.get("what", "")}
         finally:
             shutil.rmtree(d, ignore_errors=True)
             import glob, hashlib
             for old in glob.glob(os.path.join(V, "build", "*-alt" + hashlib.sha1(d.encode()).hexdigest()[:8] + "*")):
                 shutil.rmtree(old, ignore_errors=True)
-        rows.append(row)
         print("%-28s %-4s suite=%-13s caught=%-5s %6.1fs  %s" % (row["id"], row["property"], row["suite"], row["caught"], row["seconds"], row["first_reason"][:110]), flush=True)
+        return row
+
+    if a.jobs > 1:
+        from concurrent.futures import ThreadPoolExecutor
+        with ThreadPoolExecutor(a.jobs) as ex:
+            rows = list(ex.map(one, todo))
+    else:
+        rows = [one(m) for m in todo]
     if a.out:
         old = []
         if os.path.exists(a.out):
